@@ -703,3 +703,57 @@ def case_cascade(draw, max_extent=5, with_spacetime=False, **kw):
     case = {"spec": spec}
     case.update(rt)
     return case
+
+
+# --------------------------------------------------------------------------
+# the corpus shared by the static checks (C06, C09, C10): every family, plain or spacetime mode
+
+
+@st.composite
+def with_spacetime(draw, case):
+    """add a spacetime section for every Einsum (explicit loop order is written out first)"""
+    spec = case["spec"]
+    for expr in spec["exprs"]:
+        out = S.out_name(expr)
+        lo = (spec.get("loop_order") or {}).get(out)
+        if not lo:
+            if case.get("family") in ("flat",) or case.get("template"):
+                continue        # default order of flattened / affine mappings is not reconstructed here
+            lo = default_loop_ranks(spec, expr)
+            if not lo:
+                continue
+            spec.setdefault("loop_order", {})[out] = lo
+        spec.setdefault("spacetime", {})[out] = draw(spacetime_for(lo))
+    return case
+
+
+@st.composite
+def case_shape_any(draw, max_extent=5):
+    """D_shape, but output-only ranks may exist and may be partitioned (C06's known finding lives there)"""
+    c = draw(case_shape(max_extent=max_extent, allow_output_only=True))
+    return c
+
+
+@st.composite
+def corpus_case(draw, max_extent=4, spacetime_ratio=2):
+    fam = draw(st.sampled_from(["plain", "plain", "shape", "shape", "occ", "flat", "affine", "affine", "cascade"]))
+    if fam == "plain":
+        c = draw(case_of(spec_plain(), max_extent=max_extent))
+    elif fam == "shape":
+        c = draw(case_shape_any(max_extent=max_extent))
+    elif fam == "occ":
+        c = draw(case_occ(max_extent=max_extent))
+    elif fam == "flat":
+        c = draw(case_flat(max_extent=max_extent))
+    elif fam == "affine":
+        c = draw(case_affine(max_extent=max_extent))
+    else:
+        c = draw(case_cascade(max_extent=3))
+    c.setdefault("family", fam)
+    mode = "plain"
+    if draw(st.integers(0, spacetime_ratio)) == 0:
+        c = draw(with_spacetime(c))
+        if c["spec"].get("spacetime"):
+            mode = "spacetime"
+    c["mode"] = mode
+    return c
